@@ -54,6 +54,8 @@ def _valid_gate_op(op, n):
         k = op.gate.num_qubits
     except Exception:
         return False
+    if GC.has_numpy_params(op.gate):
+        return False
     return (len(qs) == k and len(set(qs)) == k and all(isinstance(q, (int, np.integer)) and 0 <= q < n for q in qs))
 
 
